@@ -455,6 +455,12 @@ func (p *Prog) applyRenames() {
 					continue // unchanged name
 				}
 				ts := types.TypeString(f.Type(), nil)
+				// a field whose type was renamed as well: compare under the reference names of the types
+				for rtn, refT := range rs.typeRef {
+					if rtn.Pkg() != nil {
+						ts = replaceTypeWord(ts, rtn.Pkg().Path()+"."+rtn.Name(), rtn.Pkg().Path()+"."+refT)
+					}
+				}
 				// reference fields that disappeared and have the same type
 				var cands []int
 				for j, rf := range ref.Fields {
@@ -552,4 +558,26 @@ func objName(o interface{ Name() string }) string {
 		}
 	}
 	return o.Name()
+}
+
+// replaceTypeWord replaces the qualified type name old by new where it stands as a whole word.
+func replaceTypeWord(s, old, new string) string {
+	out := ""
+	for {
+		i := strings.Index(s, old)
+		if i < 0 {
+			return out + s
+		}
+		end := i + len(old)
+		isWord := func(b byte) bool {
+			return b == '_' || (b >= '0' && b <= '9') || (b >= 'a' && b <= 'z') || (b >= 'A' && b <= 'Z')
+		}
+		if end < len(s) && isWord(s[end]) {
+			out += s[:end]
+			s = s[end:]
+			continue
+		}
+		out += s[:i] + new
+		s = s[end:]
+	}
 }
